@@ -418,8 +418,65 @@ def r_step(rnd, ext, first_inc=False):
     return items
 
 
+def render_general(items, rnd):
+    """the general layout of coq/C07/SpecG.v: optional '+' / "-0" / leading zeros, numbers separated by a sign only, LF / CR / CRLF /
+    any non-digit byte behind a symbol-table atom, CR line breaks, keywords glued to their neighbours, whitespace tail"""
+    out = []
+    st = {'num': False}
+    WS = [[32], [32], [9], [10], [13], [13, 10], [32, 32], [11], [12], [10, 32]]
+
+    def number(v):
+        first = not out
+        sign = b''
+        if not first:
+            r = rnd.random()
+            if v == 0 and r < 0.15:
+                sign = b'-'
+            elif r < 0.3:
+                sign = b'+'
+        if not first and ((st['num'] and not sign) or rnd.random() < 0.6):
+            out.extend(rnd.choice(WS))
+        out.extend(sign)
+        if rnd.random() < 0.15:
+            out.extend(rnd.choice([b'0', b'00', b'0000000000000000000000']))
+        out.extend(str(v).encode())
+        st['num'] = True
+
+    def brk():
+        out.extend(rnd.choice([[10], [10], [13, 10], [13]]))
+        st['num'] = False
+    for it in items:
+        if it[0] == 'line':
+            for _, v in it[1]:
+                number(v)
+        elif it[0] == 'sym':
+            number(it[1])
+            sep = rnd.choice([[it[2]], [it[2]], [10], [13, 10], [13], [9], [43], [45], [66]])
+            if sep == [13] and not it[3]:
+                sep = [13, 10]
+            out.extend(sep)
+            out.extend(it[3])
+            brk()
+        else:
+            if rnd.random() < 0.5:
+                out.extend(rnd.choice(WS))
+            out.extend(it[1])
+            if it[1] != b'E':
+                brk()
+            else:
+                st['num'] = False
+                if rnd.random() < 0.5:
+                    out.extend(rnd.choice(WS))
+    if rnd.random() < 0.5:
+        out.extend(rnd.choice(WS))
+    return out
+
+
 def render(items, rnd, style):
-    """style: 'lf' canonical, 'crlf', 'wild' (random whitespace between tokens, signs / leading zeros, rules spread over lines)"""
+    """style: 'lf' canonical, 'crlf', 'wild' (random whitespace between tokens, signs / leading zeros, rules spread over lines),
+    'general' (render_general)"""
+    if style == 'general':
+        return render_general(items, rnd)
     nl = {'lf': [10], 'crlf': [13, 10]}.get(style)
     wild = style == 'wild'
     out = []
@@ -542,7 +599,7 @@ def gen(seed, tier):
         ob = (1 if ext else 0) | (8 if rnd.random() < 0.3 else 0)
         gen_ext = ext if rnd.random() < 0.85 else not ext   # sometimes extension rules without the option
         items = r_items(rnd, gen_ext)
-        style = rnd.choice(['lf', 'lf', 'crlf', 'wild'])
+        style = rnd.choice(['lf', 'lf', 'crlf', 'wild', 'general'])
         r = rnd.random()
         if r < 0.35:
             add(render(items, rnd, style), ob, 'valid-' + style)
